@@ -141,3 +141,35 @@ func VerifC13_AppendWhileLogging() {
 	combined.Log("zz")
 	verif.Assert("after_append_both_members_get_messages", vHasOnce(m1.out, "zz") && vHasOnce(m2.out, "zz"))
 }
+
+// VerifC13_ConcurrentAppends: members appended concurrently are all kept.
+func VerifC13_ConcurrentAppends() {
+	verif.ExploreSchedules(2)
+	m1, m2, m3 := &vRecorder{}, &vRecorder{}, &vRecorder{}
+	combined, err := NewCombinedLoggers(m1)
+	verif.Assert("constructor", err == nil)
+	done := make(chan bool, 3)
+	go func() {
+		verif.Assert("append_ok", combined.Append(m2) == nil)
+		done <- true
+	}()
+	go func() {
+		verif.Assert("append_ok", combined.Append(m3) == nil)
+		done <- true
+	}()
+	withLog := verif.Bool("logMeanwhile")
+	if withLog {
+		go func() {
+			combined.Log("ab")
+			done <- true
+		}()
+		<-done
+	}
+	<-done
+	<-done
+	combined.LogError("zz")
+	for _, m := range []*vRecorder{m1, m2, m3} {
+		verif.Assert("every_appended_member_is_kept", vHasOnce(m.err, "zz") && len(m.err) == 1)
+	}
+	verif.Assert("existing_member_gets_each_message_once", !withLog || (vHasOnce(m1.out, "ab") && len(m1.out) == 1))
+}
